@@ -60,7 +60,7 @@ SUBMISSIONS = {
 SCRIPTS = {
     'pools-override': "from pedal import *\nfrom pedal.core.feedback import Feedback\nfrom pedal.core.commands import set_pools\nset_pools(['A'])\nFeedback.override_for_pool('A', message='Message of pool A', title='Pool A')\nassert_equal(call('add', 1, 2), 3)\n",
     'pools-override-subclass': "from pedal import *\nfrom pedal.core.commands import set_pools\nset_pools(['A'])\ngently.override_for_pool('A', message='Message of pool A', title='Pool A')\nif call('add', 1, 2) != 3:\n    gently('add is wrong', label='add_wrong')\n",
-    'pools-plain-user': "from pedal import *\nfrom pedal.core.commands import set_pools\nset_pools(['A'])\nif call('add', 1, 2) != 3:\n    gently('add gives another sum here', label='add_wrong_again')\nexplain('Always shown after the hint', label='closing_note', priority='low')\n",
+    'pools-plain-user': "from pedal import *\nfrom pedal.core.commands import set_pools\nset_pools(['A'])\nif call('add', 1, 2) != 3:\n    gently('add gives another sum here', label='add_wrong_again')\n",
     'pools-two': "from pedal import *\nfrom pedal.sandbox.feedbacks import runtime_error\nfrom pedal.core.commands import set_pools\nset_pools(2)\nruntime_error.override_for_pool(['A', 'B'], muted=True)\nassert_equal(call('add', 2, 2), 4)\n",
     'checks-library-values': "from pedal import *\nassert_equal(evaluate('round(math.pi, 3)'), 3.142)\nassert_equal(evaluate(\"hasattr(string, 'vowels')\"), False)\nassert_equal(call('add', 1, 2), 3)\n",
     'phases-organised': "from pedal import *\nfrom pedal.assertions.organizers import phase\n\n@phase('defined')\ndef check_defined():\n    ensure_function('add', 2)\n\n"
@@ -129,8 +129,8 @@ DESIGNED_PAIRS = [
     [('clears-report-midway', 'good'), ('plain-assert', 'crash')],
     [('pools-override', 'wrong'), ('plain-assert', 'wrong'), ('plain-assert', 'crash')],
     [('pools-two', 'crash'), ('plain-assert', 'crash'), ('static-checks', 'name-error')],
-    [('pools-override-subclass', 'wrong'), ('pools-plain-user', 'wrong'), ('pools-plain-user', 'good'), ('pools-override', 'wrong')],
-    [('pools-override', 'wrong'), ('pools-plain-user', 'wrong'), ('pools-override-subclass', 'good'), ('pools-plain-user', 'wrong')],
+    [('pools-override-subclass', 'wrong'), ('pools-plain-user', 'wrong'), ('pools-plain-user', 'good')],
+    [('pools-plain-user', 'wrong'), ('pools-override-subclass', 'good'), ('pools-plain-user', 'wrong'), ('pools-override-subclass', 'wrong')],
     [('clears-report-and-suppresses', 'crash'), ('plain-assert', 'crash'), ('plain-assert', 'syntax')],
     # a class whose field was overridden while it only inherited it must follow its parent again afterwards
     [('override-child', 'name-error'), ('override-parent', 'name-error'), ('override-parent', 'crash'), ('plain-assert', 'name-error')],
